@@ -119,6 +119,42 @@ func genChain(r *rng.R, d *desc) []chainNode {
 	}
 }
 
+// every well-formed chain of at most maxLen nodes over the names of d (plus an unknown field and an
+// unknown type).  Well-formed: nothing follows a leaf field, an unknown field or __typename; a
+// fragment is never last; a fragment on something that is not a composite type is followed by
+// __typename only (the pinned validator panics on deeper fragments there, DESIGN §6 #6).
+func enumChains(d *desc, maxLen int) [][]chainNode {
+	var out [][]chainNode
+	emit := func(c []chainNode) { out = append(out, append([]chainNode(nil), c...)) }
+	types := append(d.allTypeNames(), "Nope")
+	var rec func(prefix []chainNode, parent string)
+	rec = func(prefix []chainNode, parent string) {
+		emit(append(prefix, chainNode{'t', ""}))
+		pt := d.typ(parent)
+		emit(append(prefix, chainNode{'f', "nofield"}))
+		for _, f := range pt.Fields {
+			c := append(prefix, chainNode{'f', f.Name})
+			emit(c)
+			if isComposite(d.kindOf(f.Type.Name)) && len(c) < maxLen {
+				rec(c, f.Type.Name)
+			}
+		}
+		if len(prefix)+2 > maxLen {
+			return
+		}
+		for _, t := range types {
+			c := append(prefix, chainNode{'g', t})
+			if isComposite(d.kindOf(t)) {
+				rec(c, t)
+			} else {
+				emit(append(c, chainNode{'t', ""}))
+			}
+		}
+	}
+	rec(nil, d.Query)
+	return out
+}
+
 func chainText(c []chainNode) string {
 	var b strings.Builder
 	b.WriteString("{\n")
